@@ -1,7 +1,7 @@
 #!/bin/bash
 # usage: tools_matrix.sh P [P...] : confirm + trial every mutation of each property (sequential per call)
 for p in "$@"; do
-  for k in m1 m2 m3; do
+  for k in ${KS:-m1 m2 m3}; do
     [ -f /tmp/mut/$p/$k/patch.diff ] || continue
     [ -f /verif/seeded/$p-$k/meta.json ] || /verif/tools_seed_confirm.sh $p $k
     echo "== $p $k"
